@@ -609,6 +609,28 @@ func (cr *caseRun) doSubmit(i int, op Op) {
 		cr.nontriv = true
 	}
 
+	// A DA layer that answers late: the two paths wait at the same time (the direct call is started here, with the
+	// whole list - the generator only scripts a late answer for a list that fits the client's limit, which the size
+	// clause below checks on what the DA layer behind the proxy received).
+	type directDone struct {
+		res coreda.ResultSubmit
+		rec *callRec
+		err error
+	}
+	var early chan directDone
+	if op.Out.Kind == "slow" && op.ctx() == "live" && sizeClass == "fit" {
+		early = make(chan directDone, 1)
+		go func() {
+			var dd directDone
+			d0 := p.direct.logLen()
+			dd.err = runCall(p.direct, "live", func(ctx context.Context) {
+				dd.res = types.SubmitWithHelpers(ctx, p.direct, x.logger, blobs, op.Gas, []byte(tag))
+			})
+			dd.rec = lastSubmitRec(p.direct.logFrom(d0))
+			early <- dd
+		}()
+	}
+
 	// proxied path
 	r0 := p.remote.logLen()
 	var pres coreda.ResultSubmit
@@ -773,6 +795,21 @@ func (cr *caseRun) doSubmit(i int, op Op) {
 		// nothing was sent: the reference is the statement's "blob too big", checked above; the direct
 		// backing is not called either, so that the two stay in step
 		do = Obs{Code: uint64(coreda.StatusTooBig)}
+	} else if early != nil {
+		dd := <-early
+		if dd.err != nil {
+			cr.callFailed(i, "submit-agree", "direct submit", dd.err)
+			return
+		}
+		if rrec != nil && m != len(blobs) {
+			// a client with a stricter notion of size cut a list the generator took for fitting (accepted above): the
+			// direct DA layer was given more than the one behind the proxy, the two results cannot be compared
+			cr.inconclusive(i, "late answer: the client passed on only a part of a small list; the direct call had been started with the whole list")
+			return
+		}
+		r.Hit("submit-agree/late-answer")
+		do = obsSubmit(dd.res)
+		drec = dd.rec
 	} else {
 		dblobs := blobs[:min(k, len(blobs))]
 		if rrec != nil && m <= len(blobs) {
@@ -1263,6 +1300,11 @@ func Run(r *vk.Run) {
 	nSize := len(cases) - nEnum
 	cases = append(cases, genRandom(r.Rand("random-clean"), r.N(600, 12000), false)...)
 	cases = append(cases, genRandom(r.Rand("random-trigger"), r.N(80, 1000), true)...)
+	// a DA layer that answers a submission late but well inside the node's own budget (block.Manager allows 60 s per
+	// submission): the ids must come back through the proxy as they do in process. One case, 11.5 s of real waiting
+	// on both paths at once; it is handed to a worker first, so the run takes about that long and no longer.
+	cases = append(cases, Case{Part: "E-slow", Name: "submit answered after 11.5 s", Cfg: cfgVariants[0], BackLimit: "none", Seed: r.Rand("slow").Int63(),
+		Ops: []Op{submit(10, 20), submit(5, 6, 7).with(Outcome{Kind: "slow", DelayMs: 11500}).probe(), submit(9), retrieve("last")}})
 	for i := range cases {
 		cases[i].ID = i
 		// safety net for the rule "a blob the client must refuse is never combined with a scripted
@@ -1329,7 +1371,14 @@ func Run(r *vk.Run) {
 		}()
 	}
 	for _, c := range cases {
-		ch <- c
+		if c.Part == "E-slow" {
+			ch <- c
+		}
+	}
+	for _, c := range cases {
+		if c.Part != "E-slow" {
+			ch <- c
+		}
 	}
 	close(ch)
 	wg.Wait()
@@ -1352,7 +1401,7 @@ func Run(r *vk.Run) {
 	for clause, n := range map[string]int64{"submit-agree": 100, "retrieve-agree": 100, "error-class-agree": 100, "cancel-agree": 10,
 		"future-substring-agree": 10, "count-is-stored": 50, "longest-prefix": 30, "too-big": 15, "wire-args": 100, "state-agree": 100,
 		"timestamp-agree": 50, "method-agree": 60, "method-agree/Submit": 5, "method-agree/GetProofs": 5, "method-agree/Validate": 5, "method-agree/Commit": 5,
-		"method-agree/GasPrice": 3, "method-agree/GasMultiplier": 3} {
+		"method-agree/GasPrice": 3, "method-agree/GasMultiplier": 3, "submit-agree/late-answer": 1} {
 		if os.Getenv("C16_ONLY") == "" {
 			r.Require(clause, n)
 		}
